@@ -539,3 +539,46 @@ def c20(tier, seed, work):
 
 
 CHECKS.update({"C05": c05, "C06": c06, "C07": c07, "C08": c08, "C17": c17, "C20": c20})
+
+
+def c13(tier, seed, work):
+    mcs = [F.model_check("Timing", c, work, workers=4) for c in
+           ["MC_Timing_TRUE_2.cfg", "MC_Timing_TRUE_3.cfg", "MC_Timing_TRUE_7.cfg", "MC_Timing_FALSE_2.cfg", "MC_Timing_FALSE_3.cfg", "MC_Timing_FALSE_7.cfg"]]
+    killed = []
+    for cfg, inv in [("Mutant_Timing_Nested.cfg", "C13_NeverBlocksPastDeadline"), ("Mutant_Timing_Backoff.cfg", "C13_NeverBlocksPastDeadline")]:
+        if not F.expect_violation("Timing", cfg, work, inv):
+            raise vlib.Inconclusive("model mutant %s did not violate %s" % (cfg, inv))
+        killed.append({"cfg": cfg, "violates": inv})
+    # real time over UDP loopback; a timing violation must reproduce in three independent runs
+    runs = []
+    sigsets = []
+    for attempt in range(3):
+        f = F.walk_family(work, "c13-udp-%d" % attempt, "MCGenTiming", "Gen_Cipher.cfg.tpl", "all", tier, seed, workers=16 if tier == "quick" else 8)
+        require_accepted([f])
+        runs.append(f)
+        v = flatten(f)
+        sigsets.append({(x["prop"], x["pred"], x["where"]["script_index"]) for x in v if x["prop"] == "C13"})
+        if not sigsets[-1]:
+            break
+    viols = []
+    if len(sigsets) == 3 and sigsets[0] & sigsets[1] & sigsets[2]:
+        keep = sigsets[0] & sigsets[1] & sigsets[2]
+        viols = [x for x in flatten(runs[-1]) if (x["prop"], x["pred"], x["where"]["script_index"]) in keep]
+        attach_scripts(viols)
+    last = runs[-1]
+    cov = {"states": sum(m["distinct"] for m in mcs), "transitions": sum(m["generated"] for m in mcs), "model_checking": mcs,
+           "model_mutants_killed": killed, "traces_validated_against_impl": last["scripts"], "events_validated": last["events"],
+           "evaluations": sum(r["scripts"] for r in runs), "distinct_nontrivial": last["scripts"], "runs": len(runs),
+           "rule": "Timing.tla (integer clock; per-attempt timeout nested in the context; back-off bounded by the context) checked "
+                   "exhaustively for deadline/timeout ratios <1, 1, >1, in and out of a session, with both nesting guards as mutants. "
+                   "Real time: every blocking call (session-less command, each handshake leg, in-session command, close, SDR retrieval) x "
+                   "{black hole, reply after the per-attempt timeout, garbage, temporary code forever, truncated handshake reply, permanent "
+                   "error for SDR} x deadline/timeout ratios 0.25, 1, 3, plus each call with an already expired deadline, over UDP loopback "
+                   "with the library's own transport and back-off; allowance max(150 ms, 0.3 x deadline); a violation must reproduce in 3 runs.",
+           "families": fam_cov(runs), "samples": [sample_script(last)]}
+    return {"level": "model_checking", "coverage": cov, "viols": viols, "assumptions": [
+        "wall-clock measurements on a shared machine: allowance max(150 ms, 0.3 x deadline), three-fold reproduction",
+        "cancellation (as opposed to deadline expiry) is not asserted: the property speaks of deadlines"]}
+
+
+CHECKS.update({"C13": c13})
